@@ -106,7 +106,7 @@ Next ==
 Spec == Init /\ [][Next]_vars
 
 \* ---- contract (C01) evaluated on the model's observable history ------------
-Rec(i) == [t |-> ev[i].t, c |-> i, d |-> ev[i].d, x |-> ev[i].x]
+Rec(i) == [t |-> ev[i].t, c |-> i, d |-> ev[i].d, x |-> ev[i].x, z |-> FALSE]
 Log == [k \in 1..Len(delivered) |-> Rec(delivered[k])]
 Pending == { Rec(i) : i \in heap }
 
